@@ -69,6 +69,28 @@ theorem marshal_length (p : Packet) (w : Bytes) (hm : marshal p = .ok w) (ha : p
     w.length = 20 + wireLen p.attrs ∧ lengthField w = w.length ∧ w.length ≤ 4096 := by
   exact marshal_length_cond p w hm ha
 
+/-- Whatever the encoder emits, the decoder accepts, and encoding the decoded packet gives the same
+    octets again (encode ∘ decode ∘ encode = encode). -/
+theorem marshal_parse_marshal (p : Packet) (w s : Bytes) (hm : marshal p = .ok w)
+    (hc : 0 ≤ p.code ∧ p.code ≤ 255) (ha : p.auth.length = 16) :
+    ∃ q, parse w s = .ok q ∧ marshal q = .ok w := by
+  refine ⟨_, parse_marshal p w s hm hc ha, ?_⟩
+  have h1 := marshal_parse w s _ (parse_marshal p w s hm hc ha)
+  have h2 := marshal_length p w hm ha
+  rw [h1, h2.2.1, List.take_length]
+
+/-- Decoding is insensitive to what follows the datagram: two buffers that agree on the first
+    `Length` octets decode to the same packet. -/
+theorem parse_depends_on_prefix (b pad pad' s : Bytes) (p : Packet) (h : parse (b ++ pad) s = .ok p)
+    (hl : lengthField (b ++ pad) ≤ b.length) : parse (b ++ pad') s = .ok p := by
+  have h1 := (parse_ignores_padding (b ++ pad) [] s p h).2
+  have e : (b ++ pad).take (lengthField (b ++ pad)) = b.take (lengthField (b ++ pad)) := by
+    rw [List.take_append_of_le_length hl]
+  rw [e] at h1
+  have := (parse_ignores_padding _ ((b.drop (lengthField (b ++ pad))) ++ pad') s p h1).1
+  rw [← List.append_assoc, List.take_append_drop] at this
+  exact this
+
 /-- 5. `encodeTo` into a buffer of the reported size writes exactly the valid-type attributes in
     list order, without overrun, and the reported length equals the bytes written (shared with C09). -/
 theorem encodeTo_writes (as : Attrs) (n : Nat) (h : encodedLen as = .ok n) :
